@@ -114,7 +114,12 @@ def run_C07(ctx, R):
     search.rule_safe_idx(ctx, R)
     search.rule_safe_param(ctx, R)
     search.rule_safe_field(ctx, R)
-    search.rule_iter_leftmost(ctx, R, rules={"SAFE-STR"})
+    search.rule_iter_leftmost(ctx, R, rules={"SAFE-STR", "ITER-LM", "ITER-STATE", "ITER-OUT", "ITER-HEAD"})
+    search.rule_iter_standard(ctx, R, rules={"ITER-STATE", "ITER-OUT", "ITER-HEAD", "ITER-CHAIN", "LAZY-PULL"})
+    search.rule_trans(ctx, R)
+    # SAFE-DESER: tables may also enter through deserialize_unchecked; for images produced by serialize the
+    # round-trip identity (C09's rules) transfers the invariants unchanged
+    ser.rule_ser(ctx, R)
     nfa.rule_outputs_pass(ctx, R, E.NR)
     da.rule_placement(ctx, R, E.NR, E.BR, rules={"B-BASE", "B-EXT", "B-FAIL", "B-OPOS", "DA-EDGE"})
     da.rule_find_base(ctx, R, E.NR, E.BR)
